@@ -425,7 +425,18 @@ def install(prog):
             return err(io_error('No such file or directory (os error 2)'))
         if p in ctx.fs:
             return err(io_error('Not a directory (os error 20)'))
-        return ok(it_seq([ok(Agg('DirEntry', None, (PathV(given.absolute, given.trimmed() + (n,)),))) for n in sorted(names)]))
+        names = sorted(names)
+        # the order in which a directory lists its entries is unspecified: it is an environment choice, i.e. a symbolic permutation
+        # (directories of 2..3 entries; larger ones are listed in name order, stated as a bound)
+        if 2 <= len(names) <= 3 and getattr(ctx, 'symbolic_dir_order', True):
+            import itertools
+            perms = list(itertools.permutations(names))
+            ctx._rd = getattr(ctx, '_rd', 0) + 1
+            k = ctx.bv('readdir%d' % ctx._rd, 8)
+            ctx.assume(z3.ULT(k, len(perms)))
+            names = list(perms[ctx.concretize_int(k, list(range(len(perms))))])
+        ctx.events.append(('read_dir', p, tuple(names)))
+        return ok(it_seq([ok(Agg('DirEntry', None, (PathV(given.absolute, given.trimmed() + (n,)),))) for n in names]))
 
     @B('DirEntry::path', 'std::fs::DirEntry::path')
     def b_direntry_path(ctx, a, callee):
